@@ -6,10 +6,13 @@
 
 mod common;
 mod evo;
+mod graph;
 mod hostile;
 mod inputs;
+mod prims;
 mod replay;
 mod rt;
+mod streams;
 
 use common::*;
 use monitors::json::J;
@@ -112,6 +115,10 @@ fn main() {
                 "C05" => hostile::c05(&mut ctx, &mut acc),
                 "C06" => hostile::c06(&mut ctx, &mut acc),
                 "C07" => rt::c07(&mut ctx, &mut acc),
+                "C09" => streams::c09(&mut ctx, &mut acc),
+                "C10" => graph::c10(&mut ctx, &mut acc),
+                "C11" => prims::c11(&mut ctx, &mut acc),
+                "C15" => prims::c15(&mut ctx, &mut acc),
                 "C08" => rt::c08(&mut ctx, &mut acc),
                 other => {
                     eprintln!("unknown check {other}");
